@@ -40,12 +40,19 @@ def _truth_of(v):
     return bool(v)
 
 
+COPIED = []  # terms that were produced by copy.deepcopy (values must travel by reference, as in plain Python)
+
+
 class Const(Term):
     __slots__ = ("c", "truth")
 
     def __init__(self, c, truth):
         self.c = c
         self.truth = bool(truth)
+
+    def __deepcopy__(self, memo):
+        COPIED.append(repr(self))
+        return Const(self.c, self.truth)
 
     def __bool__(self):
         return self.truth
@@ -76,6 +83,10 @@ class App(Term):
 
     def __repr__(self):
         return "App(%d,%s,%r)" % (self.f, self.truth, self.args)
+
+    def __deepcopy__(self, memo):
+        COPIED.append(repr(self)[:60])
+        return App(self.f, self.truth, self.args)
 
     def __hash__(self):
         return hash(("App", self.f, self.truth, len(self.args)))
